@@ -285,3 +285,5 @@ func propC14() Prop[C14Case] {
 func TestC14(t *testing.T) { Run(t, propC14()) }
 
 func FuzzGenC14(f *testing.F) { RunFuzz(f, propC14()) }
+
+func TestRaceC14(t *testing.T) { RunConcurrent(t, propC14(), 4) }
